@@ -533,10 +533,20 @@ fn bvm_history_cases(r: &mut Rng, t: Tier, n_cases: usize, out: &mut Vec<Case>) 
                 c.l(format!("mk 0 bvbits:mut {} {}", len, join(&ones)));
             }
             _ => {
+                // positions in any order, with repetitions in half of the cases (Extend<usize> sets bits one by one)
                 let mut ps: Vec<usize> = (0..r.below(30)).map(|_| r.below(1200) as usize).collect();
-                ps.sort();
-                ps.dedup();
-                len = ps.last().map(|x| x + 1).unwrap_or(0);
+                if r.chance(1, 2) {
+                    ps.sort();
+                    ps.dedup();
+                } else if !ps.is_empty() {
+                    for _ in 0..r.range(1, 6) {
+                        let d = *r.pick(&ps);
+                        let at = r.below(ps.len() as u64 + 1) as usize;
+                        ps.insert(at, d);
+                    }
+                    c.tag("positions=repeated");
+                }
+                len = ps.iter().max().map(|x| x + 1).unwrap_or(0);
                 c.l(format!("mk 0 bvpos:mut {}", join(&ps)));
             }
         }
@@ -578,7 +588,16 @@ fn bvm_history_cases(r: &mut Rng, t: Tier, n_cases: usize, out: &mut Vec<Case>) 
                 }
                 10 => {
                     let k = r.range(0, 6) as usize;
-                    let ps: Vec<usize> = (0..k).map(|_| r.below(len as u64 + 200) as usize).collect();
+                    let mut ps: Vec<usize> = (0..k).map(|_| r.below(len as u64 + 200) as usize).collect();
+                    // repeat a position of the list / hit positions inside the vector (bits that may already be set)
+                    if !ps.is_empty() && r.chance(1, 2) {
+                        let d = *r.pick(&ps);
+                        ps.push(d);
+                        if len > 0 {
+                            ps.push(r.below(len as u64) as usize);
+                            ps.push(len - 1);
+                        }
+                    }
                     for &p in &ps {
                         if p >= len {
                             len = p + 1;
@@ -1410,6 +1429,26 @@ pub fn cases(prop: &str, t: Tier, seed: u64) -> Vec<Case> {
                 c.l(format!("mk 6 da {} 0", i % 2));
                 c.l(format!("mk 7 dabits {} {} {}", i % 2, n, join(&ones)));
                 c.l("eq 6 7");
+                // the same set of positions given out of order and with repetitions builds the same vector
+                if ones.last().map(|x| x + 1).unwrap_or(0) == n && !ones.is_empty() {
+                    let mut ps = ones.clone();
+                    for _ in 0..r.range(1, 5) {
+                        let d = *r.pick(&ones);
+                        let at = r.below(ps.len() as u64 + 1) as usize;
+                        ps.insert(at, d);
+                    }
+                    if r.chance(1, 2) {
+                        ps.reverse();
+                    }
+                    c.l(format!("mk 8 bvpos {}", join(&ps)));
+                    c.l("eq 0 8");
+                    c.l("q 8 count_ones");
+                    c.l("q 8 count_zeros");
+                    c.l(format!("mk 9 bvpos:mut {}", join(&ps)));
+                    c.l("q 9 count_ones");
+                    c.l("mk 10 rsw 8");
+                    c.l("eq 4 10");
+                }
                 c.l("mk 8 copy 6");
                 c.l("eq 6 8");
                 let mut other = ones.clone();
